@@ -268,4 +268,6 @@ def run(res, tier):
     ]
     res.rule = ("one case = one returning MIR path of the predicate x 3 host classes (z3 string queries), or one "
                 "path of a fetch gate that reaches the fetch; evaluations = z3 queries")
+    import argslice
+    argslice.check_cli_flag(res, E, mprop, "allow_dubious_hosts", "--allow-dubious-hosts", "dubious hosts are then contacted although not allowed (or the reverse)")
     mprop.finish_engine(res, E)
